@@ -32,6 +32,8 @@ def run_property(pid, tier, write=True, root=None):
     except ModuleNotFoundError:
         analysis_error(pid, "no check registered for this property")
         return 2, rep
+    from . import shape as _shape
+    rep.shape_gate = _shape.Gate(prog).changed
     from . import core as _core
     from . import sym as _sym
     _sym.OPAQUE_GENERATORS.clear()
